@@ -157,6 +157,7 @@ func runRace(in input) lib.Case {
 			<-start
 			spin(s)
 			res.err = e.r.Stop()
+			e.sampleAtReturn()
 			e.mu.Lock()
 			e.stopRetStamp[idx] = e.tick()
 			e.mu.Unlock()
@@ -174,7 +175,7 @@ func runRace(in input) lib.Case {
 		for {
 			select {
 			case c := <-ch:
-				e.conns = append(e.conns, &connRec{idx: len(e.conns), peer: -1, dialled: dialled, our: c})
+				e.addConn(&connRec{idx: len(e.conns), peer: -1, dialled: dialled, our: c})
 			default:
 				return
 			}
